@@ -27,6 +27,20 @@ def make_symbolic(I, kind, name):
             t = fresh(name)
             P.assume(t >= 0)
             return SInt(t)
+        if kind == 'int32nat':
+            # a value that entered through a KMIP Integer: 0 .. 2**31 - 1
+            t = fresh(name)
+            P.assume(z3.And(t >= 0, t <= 2 ** 31 - 1))
+            return SInt(t)
+        if kind == 'date':
+            # seconds since the epoch as stored by the server (a KMIP DateTime: signed 64 bit)
+            t = fresh(name)
+            P.assume(z3.And(t >= 0, t <= 2 ** 63 - 1))
+            return SInt(t)
+        if kind == 'pos':
+            t = fresh(name)
+            P.assume(t >= 1)
+            return SInt(t)
         if kind == 'byte':
             t = fresh(name)
             P.assume(z3.And(t >= 0, t <= 255))
@@ -184,6 +198,15 @@ def make_symbolic(I, kind, name):
         n = fresh(name + "_len")
         P.assume(n >= 0)
         return pyvc.SList(name, n, lambda I2, tg: make_symbolic(I2, ek, "%s.%s" % (name, tg)))
+    if tag == 'accumulator':
+        # a list a loop appends to: after an arbitrary number of iterations its content is some
+        # list of such elements; `append` inside the iteration under proof is recorded as an event
+        ek = kind[1]
+        n = fresh(name + "_len")
+        P.assume(n >= 0)
+        sl = pyvc.SList(name, n, lambda I2, tg: make_symbolic(I2, ek, "%s.%s" % (name, tg)))
+        sl.accumulator = True
+        return sl
     if tag == 'mutbytes':
         return pyvc.MutBytes(make_symbolic(I, 'bytes', name))
     raise OutOfFragment("unknown kind %r" % (kind,))
